@@ -292,6 +292,7 @@ def install_formatter(S: Seams, fmt):
         always = set(fmt.get("at", [])) if kind == "raises" else set()
         frag_at = set(fmt.get("fragments_at", [])) if kind == "raises" else set()
         frag_calls = [0]
+        transient = [False]
 
         def format_str(src, *, mode):
             k = S.fmt_calls
@@ -303,6 +304,12 @@ def install_formatter(S: Seams, fmt):
                 frag_calls[0] += 1
                 if fk in frag_at:
                     raise RuntimeError("injected: black failed for this fragment")
+            if fmt.get("transient_whole_file") and "simlib" in src and not transient[0]:
+                # a transient failure: the first time black is handed a whole file that it would change (the new, not yet formatted content - the
+                # originals of such a run are fixed points of black) it fails; every later call works
+                if real_format_str(src, mode=mode) != src:
+                    transient[0] = True
+                    raise RuntimeError("injected: black failed once (transient)")
             if act == "fmt_raise" or k in always or fmt.get("always"):
                 raise RuntimeError("injected: black failed")
             if act == "fmt_black_truncated":
